@@ -245,6 +245,38 @@ Lemma T_C02_entry_chain c k kid ss s :
   end.
 Proof. apply cost_run, (cost_map_entry c k kid ss). Qed.
 
+(* extend, after its up-front reserve (which the property exempts): the insertion loop over n
+   items costs at most n inserts, i.e. every item added by extend moves at most R elements *)
+Definition extend_loop (c : cfg) (items : list (N * N * N)) : M' unit :=
+  iterM (fun x => let '(k, kid, v) := x in
+                  o <- map_insert c k kid v ;;
+                  match o with Some v' => drop_val v' | None => ret tt end) items.
+
+Lemma extend_is_reserve_then_loop c items hint :
+  map_extend c items hint =
+  (s <- get ;;
+   let reserve := if rt_len (s_rt s) =? 0 then hint else hint / 2 + hint mod 2 in
+   on_unwind (rt_reserve c false reserve) (iterM (fun x => drop_key (snd (fst x)) ;;; drop_val (snd x)) items) ;;;
+   extend_loop c items).
+Proof. reflexivity. Qed.
+
+Lemma cost_extend_loop c items :
+  cost (dmul (N.of_nat (length items)) (D (1 + cR c) (cR c) 1 2)) (extend_loop c items).
+Proof.
+  apply cost_iterM. intros [[k kid] v].
+  eapply cost_weaken; [|eapply cost_bind; [apply (cost_map_insert c k kid v)|]].
+  2: { intros [v'|]; [apply cost_drop_val|apply cost_ret]. }
+  unfold dle, dadd, dz; cbn. lia.
+Qed.
+
+Lemma T_C02_extend_loop c items s :
+  match extend_loop c items s with
+  | Ok _ s' | Unwind _ s' =>
+      log_within (dmul (N.of_nat (length items)) (D (1 + cR c) (cR c) 1 2)) s s'
+  | Fault _ => True
+  end.
+Proof. apply cost_run, cost_extend_loop. Qed.
+
 (* ---------------------------------------------------------------- C10 *)
 
 Lemma T_C10_with_capacity c fallible cap s t s' :
